@@ -80,6 +80,7 @@ func c15(r *lp.Run) {
 		r.Fail(lp.PropFail{Property: "C15", What: "the generator refuses the error-response spec", Input: stagesErrDoc, Observed: err.Error(), Expected: "generated package"})
 		return
 	}
+	extra := c15Extra(r, mod)
 	bin, err := mod.Build()
 	if err != nil {
 		r.Fail(lp.PropFail{Property: "C02", What: "generated packages do not compile", Input: "stage specs", Observed: err.Error(), Expected: "compiles"})
@@ -188,6 +189,7 @@ func c15(r *lp.Run) {
 		c15One(r, drv, pkg.Name, q, respond)
 	}
 	c15Errors(r, drv, epkg.Name)
+	c15ExtraRun(r, drv, extra)
 	c15Mutations(r, rng, drv, pkg.Name, valid(), respond)
 }
 
